@@ -44,8 +44,9 @@ try:
                        VERIF_REPLAY_DIR=os.path.join(scratch, "rp"), VERIF_SHRINK_S="20")
             t = time.time()
             q = subprocess.run([f"{V}/check", c, "--tier", "quick"], env=env, capture_output=True, text=True, timeout=1200)
+            rc_eff = q.returncode if not (q.returncode == 1 and "VIOLATION property=" not in q.stdout) else 2
             mo = re.search(r"oracle=(\S+)", q.stdout)
-            res.setdefault(m, {})[c] = {"rc": q.returncode, "wall": round(time.time() - t, 1), "oracle": mo.group(1) if mo else None}
+            res.setdefault(m, {})[c] = {"rc": rc_eff, "wall": round(time.time() - t, 1), "oracle": mo.group(1) if mo else None}
             print(m, c, res[m][c], flush=True)
             json.dump(res, open(out_path, "w"), indent=1, sort_keys=True)
 finally:
